@@ -263,6 +263,23 @@ def whitelist(repo: Repo):
                 if isinstance(comp, ast.Call) and isinstance(comp.func, ast.Name) and comp.func.id in ("tuple", "list", "sorted", "frozenset", "set") \
                         and len(comp.args) == 1 and not comp.keywords:
                     comp = comp.args[0]  # the names of the registry
+        if isinstance(comp, ast.Call) and isinstance(comp.func, ast.Attribute) and isinstance(comp.func.value, ast.Name) \
+                and not comp.args and not comp.keywords and isinstance(n, ast.Compare) and isinstance(n.ops[0], ast.NotIn):
+            # `distance not in d.available_distances()` with the accessor returning tuple(DISTANCES) / list / sorted / .keys()
+            mi0 = repo.modules[st.module]
+            dmod0 = repo.modules.get("opfython.math.distance")
+            if dmod0 is not None and mi0.imports.get(comp.func.value.id) == "opfython.math.distance" and comp.func.attr in dmod0.functions:
+                fb = [x for x in dmod0.functions[comp.func.attr].node.body if not (isinstance(x, ast.Expr) and isinstance(x.value, ast.Constant))]
+                if len(fb) == 1 and isinstance(fb[0], ast.Return) and fb[0].value is not None:
+                    v = fb[0].value
+                    if isinstance(v, ast.Call) and isinstance(v.func, ast.Name) and v.func.id in ("tuple", "list", "sorted", "frozenset", "set") \
+                            and len(v.args) == 1 and not v.keywords:
+                        v = v.args[0]
+                    if isinstance(v, ast.Call) and isinstance(v.func, ast.Attribute) and v.func.attr == "keys" and not v.args:
+                        v = v.func.value
+                    if isinstance(v, ast.Name) and v.id == "DISTANCES":
+                        from .algebra import MetricTranslator
+                        return st, sorted(MetricTranslator(repo).registry()), n
         if isinstance(n, ast.Compare) and len(n.ops) == 1 and isinstance(n.ops[0], ast.NotIn) \
                 and isinstance(comp, (ast.List, ast.Tuple, ast.Set)):
             vals = []
